@@ -4,15 +4,19 @@ C31 — generated output files are all-or-nothing.
 Fault enumeration (level P) steered by symx selectors: the three built-in
 generators (textX->dot, any->dot, textX->PlantUML) are run through the real
 generator callables; `builtins.open` is wrapped (harness side, only for the
-output directory) by a file object whose i-th write / flush / close raises
-OSError iff selector fail_i is chosen.  Every write / flush / close call of an
-unfaulted run is one fault point = one path, in two scenarios: generating into
+output file) so that the real buffered text file sits on a raw stream whose
+i-th OS-level write() / close() fails with OSError iff selector fail_i is
+chosen (the level at which a full disk shows, wherever the code flushes:
+explicit close, context-manager exit, finaliser).  Every raw write / close of
+an unfaulted run is one fault point = one path, in two scenarios: generating into
 an empty directory and regenerating with overwrite over an existing complete file.  After a failing run the target
 file must not exist, and a second run without `overwrite` must generate the
 complete file (byte-identical to an unfaulted run).
 """
 import builtins
+import io
 import os
+import sys
 import tempfile
 
 import z3
@@ -32,33 +36,49 @@ MODEL = "model m box a { leaf x; leaf y -> x; box b { leaf z -> y; } } leaf w;"
 TARGETS = [('textX', 'dot', 'g.dot'), ('any', 'dot', 'm.dot'), ('textX', 'PlantUML', 'g.pu')]
 
 
-class FaultyFile:
-    def __init__(self, f, hook):
-        self._f, self._hook = f, hook
+class FaultyRaw(io.RawIOBase):
+    """raw (OS-level) stream under the real buffered text file object: the
+    i-th write() / close() system call fails when the hook says so — the level
+    at which a full disk or a quota shows, wherever the Python code happens to
+    flush (explicit close, context manager exit, or a finaliser)"""
 
-    def write(self, s):
+    def __init__(self, name, mode, hook):
+        io.RawIOBase.__init__(self)
+        self._raw = io.FileIO(name, mode)
+        self._hook = hook
+
+    def writable(self):
+        return True
+
+    def write(self, b):
         self._hook('write')
-        return self._f.write(s)
-
-    def flush(self):
-        self._hook('flush')
-        return self._f.flush()
+        return self._raw.write(b)
 
     def close(self):
-        try:
-            self._hook('close')
-        finally:
-            self._f.close()
+        if not self.closed:
+            try:
+                self._hook('close')
+            finally:
+                self._raw.close()
+                io.RawIOBase.close(self)
 
-    def __enter__(self):
-        return self
+    def fileno(self):
+        return self._raw.fileno()
 
-    def __exit__(self, *a):
-        self.close()
-        return False
 
-    def __getattr__(self, n):
-        return getattr(self._f, n)
+SMALL_BUFFERS = [False]
+
+
+def faulty_open(name, mode, hook, encoding=None):
+    if not SMALL_BUFFERS[0]:
+        # CPython's default buffering: a small export reaches the OS only in
+        # the final flush (close / context-manager exit / finaliser)
+        return io.TextIOWrapper(io.BufferedWriter(FaultyRaw(name, 'w', hook)), encoding=encoding or 'utf-8')
+    # small buffers, so that an export makes several OS-level writes on the way
+    f = io.TextIOWrapper(io.BufferedWriter(FaultyRaw(name, 'w', hook), buffer_size=128),
+                         encoding=encoding or 'utf-8', write_through=False)
+    f._CHUNK_SIZE = 64
+    return f
 
 
 def run_generator(ti, outdir, hook, overwrite=False):
@@ -76,10 +96,9 @@ def run_generator(ti, outdir, hook, overwrite=False):
     real_open = builtins.open
 
     def fake_open(name, mode='r', *a, **k):
-        f = real_open(name, mode, *a, **k)
-        if 'w' in mode and str(name).startswith(outdir) and str(name).endswith(outname):
-            return FaultyFile(f, hook)
-        return f
+        if 'w' in mode and 'b' not in mode and str(name).startswith(outdir) and str(name).endswith(outname):
+            return faulty_open(name, mode, hook, k.get('encoding'))
+        return real_open(name, mode, *a, **k)
     builtins.open = fake_open
     try:
         if lang == 'textX':
@@ -112,12 +131,19 @@ def explore(item):
         def hook(op):
             i = n[0]
             n[0] += 1
-            if not fired and c.branch(z3.Bool('fail_%d' % i)):
+            if fired:
+                # the condition persists (a full disk stays full): later writes
+                # of the same run fail too, e.g. the flush retried on close
+                if op == 'write':
+                    raise OSError('injected fault persists at %s #%d' % (op, i))
+                return
+            if c.branch(z3.Bool('fail_%d' % i)):
                 fired.append((i, op))
                 raise OSError('injected fault at %s #%d' % (op, i))
         try:
             # scenario selector: generate into an empty directory, or regenerate
             # with overwrite over a complete file from an earlier run
+            SMALL_BUFFERS[0] = c.branch(z3.Bool('small_buffers'))
             regen = c.branch(z3.Bool('regenerate_over_existing'))
             if regen:
                 run_generator(ti, d, lambda op: None)
@@ -128,16 +154,28 @@ def explore(item):
                 failed = True
                 out = os.path.join(d, TARGETS[ti][2])
             if not failed:
-                return ('nofault', None, n[0])
+                if not fired:
+                    return ('nofault', None, n[0])
+                # a system call failed but the generator reported success
+                got = ''
+                if os.path.exists(out):
+                    with open(out) as f:
+                        got = f.read()
+                if _norm(got) != _norm(ref):
+                    return ('left', {'fault': fired[0], 'size': len(got), 'full': len(ref), 'regenerate': regen,
+                                     'reported': 'success', 'small_buffers': SMALL_BUFFERS[0]}, n[0])
+                return ('ok', fired[0], n[0])
             if os.path.exists(out):
                 size = os.path.getsize(out)
-                return ('left', {'fault': fired[0], 'size': size, 'full': len(ref), 'regenerate': regen}, n[0])
+                return ('left', {'fault': fired[0], 'size': size, 'full': len(ref), 'regenerate': regen,
+                                 'small_buffers': SMALL_BUFFERS[0]}, n[0])
             # second run without overwrite must produce the complete file
             out2 = run_generator(ti, d, lambda op: None)
             with open(out2) as f:
                 got = f.read()
             if _norm(got) != _norm(ref):
-                return ('incomplete', {'fault': fired[0], 'size': len(got), 'full': len(ref), 'regenerate': regen}, n[0])
+                return ('incomplete', {'fault': fired[0], 'size': len(got), 'full': len(ref), 'regenerate': regen,
+                                       'small_buffers': SMALL_BUFFERS[0]}, n[0])
             return ('ok', fired[0], n[0])
         finally:
             _rmtree(d)
@@ -166,7 +204,8 @@ def _rmtree(d):
         pass
 
 
-def replay_fault(ti, index, regenerate=False):
+def replay_fault(ti, index, regenerate=False, small_buffers=True):
+    SMALL_BUFFERS[0] = small_buffers
     d = tempfile.mkdtemp(prefix='c31r_')
     n = [0]
     if regenerate:
@@ -175,12 +214,26 @@ def replay_fault(ti, index, regenerate=False):
     def hook(op):
         i = n[0]
         n[0] += 1
-        if i == index:
+        if i == index or (i > index and op == 'write'):
             raise OSError('injected fault')
     try:
         try:
-            run_generator(ti, d, hook, overwrite=regenerate)
-            return False, 'fault point not reached'
+            out = run_generator(ti, d, hook, overwrite=regenerate)
+            if n[0] <= index:
+                return False, 'fault point not reached'
+            d2 = tempfile.mkdtemp(prefix='c31r_')
+            try:
+                with open(run_generator(ti, d2, lambda op: None)) as f:
+                    ref = f.read()
+            finally:
+                _rmtree(d2)
+            got = ''
+            if os.path.exists(out):
+                with open(out) as f:
+                    got = f.read()
+            if _norm(got) != _norm(ref):
+                return True, 'success reported although a write failed: %d of %d bytes on disk' % (len(got), len(ref))
+            return False, 'complete file'
         except OSError:
             pass
         out = os.path.join(d, TARGETS[ti][2])
@@ -219,12 +272,13 @@ def main():
             elif not reported:
                 reported = True
                 ti = [i for i, t in enumerate(TARGETS) if '%s->%s' % t[:2] == r['target']][0]
-                bad, detail = replay_fault(ti, d['fault'][0], d.get('regenerate', False))
+                bad, detail = replay_fault(ti, d['fault'][0], d.get('regenerate', False), d.get('small_buffers', True))
                 chk.cov['traces_validated_against_impl'] += 1
                 if bad or kind == 'incomplete':
                     chk.violation('%s: injected failure at %s #%d: %s (%d of %d bytes)' % (
                         r['target'], d['fault'][1], d['fault'][0], kind, d['size'], d['full']),
-                        {'target_index': ti, 'fault_index': d['fault'][0], 'regenerate': d.get('regenerate', False)})
+                        {'target_index': ti, 'fault_index': d['fault'][0], 'regenerate': d.get('regenerate', False),
+                         'small_buffers': d.get('small_buffers', True)})
         chk.sample({'generator': r['target'], 'fault_points': r['fault_points'], 'clean_after_fault': r['ok'],
                     'file_left_or_incomplete': len(r['bad'])})
     chk.cov['paths_explored'] = paths
@@ -236,4 +290,5 @@ def main():
 
 
 def replay(data):
-    return replay_fault(data['target_index'], data['fault_index'], data.get('regenerate', False))
+    return replay_fault(data['target_index'], data['fault_index'], data.get('regenerate', False),
+                        data.get('small_buffers', True))
